@@ -389,6 +389,71 @@ def p2_write_part(pre_len: int, exists: bool, off: int, n: int) -> bool:
     return ok
 
 
+class _ByteFile:
+    """r+b file over a real bytearray: content model for symbolic payloads."""
+
+    def __init__(self, buf):
+        self.b, self.pos = buf, 0
+
+    def seek(self, off, whence=0):
+        self.pos = len(self.b) + off if whence == io.SEEK_END else off
+        return self.pos
+
+    def truncate(self, n):
+        if n < len(self.b):
+            del self.b[n:]
+        else:
+            self.b.extend(bytes(n - len(self.b)))
+        return n
+
+    def write(self, data):
+        end = self.pos + len(data)
+        if end > len(self.b):
+            self.b.extend(bytes(end - len(self.b)))
+        self.b[self.pos:end] = data
+        self.pos = end
+        return len(data)
+
+    def __enter__(self):
+        return self
+
+    def __exit__(self, *a):
+        pass
+
+
+class _BytePath:
+    def __init__(self, buf):
+        self.buf = buf
+        self.parent = self
+
+    def mkdir(self, **k):
+        pass
+
+    def open(self, mode):
+        if mode == 'wb':
+            del self.buf[:]
+        return _ByteFile(self.buf)
+
+
+def p2_content(data: bytes, off: int, pre_len: int) -> bool:
+    """Content after _write_file_part over a pre-existing file of 0xff bytes: the part (any bytes, zeros included) is in
+    place, everything before it is what was there (old bytes, zero fill in a gap), nothing of the old file survives inside it.
+    pre: len(data) <= 3 and 0 <= off <= 4 and 0 <= pre_len <= 6
+    post: _
+    """
+    buf = bytearray(b'\xff' * pre_len)
+    R.Repository._write_file_part(None, _BytePath(buf), data, off)
+    n = len(data)
+    ok = len(buf) >= off + n and bytes(buf[off:off + n]) == data
+    for i in range(min(off, len(buf))):
+        want = 0xff if i < pre_len else 0
+        if buf[i] != want:
+            ok = False
+    with NoTracing():
+        tick('p2c', None)
+    return ok
+
+
 # =========================================================================== S: M1 metadata
 def m1_metadata(atime: int, mtime: int, legacy: bool, la: int, lm: int) -> bool:
     """
@@ -582,12 +647,12 @@ def e_args(k: int) -> bool:
 
 def e_pre(k: int) -> bool:
     """
-    pre: shard(6 * 4 * 3 * 2)[0] <= k < shard(6 * 4 * 3 * 2)[1]
+    pre: shard(6 * 4 * 3 * 3)[0] <= k < shard(6 * 4 * 3 * 3)[1]
     post: _
     """
-    precode, i0, i1, kind = digits(k, [6, 4, 3, 2])
+    precode, i0, i1, kind = digits(k, [6, 4, 3, 3])
     with NoTracing():
-        return _e('e_pre', [[0, 3, 8, 17][i0], [0, 4, 9][i1], 6], 0 if kind == 0 else 3, 1, precode, 2, 0, 0)
+        return _e('e_pre', [[0, 3, 8, 17][i0], [0, 4, 9][i1], 6], [0, 3, 2][kind], 1, precode, 2, 0, 0)      # kind 2: all-zero files
 
 
 def e_cfg(k: int) -> bool:
